@@ -26,6 +26,24 @@ class Ctx:
     def ups(self, x):
         return [u for u, _ in self.tasks[x].get("deps", [])]
 
+    def successes(self):
+        """[(x, seq of body-end)] of body executions whose process then exited with status 0
+        (a process killed between the end of the body and the success marker did not succeed)."""
+        if getattr(self, "_succ", None) is None:
+            last_ok = {}
+            out = []
+            for ev in self.events:
+                if ev[4] == "body-end" and ev[5]["outcome"] == "ok":
+                    last_ok[ev[2]] = (ev[5]["x"], ev[0])
+                elif ev[4] == "proc-exit" and ev[5].get("kind") == "job" and ev[2] in last_ok:
+                    x, s = last_ok.pop(ev[2])
+                    if ev[5]["code"] == 0:
+                        out.append((x, s))
+                elif ev[4] == "proc-killed" and ev[5].get("kind") == "job":
+                    last_ok.pop(ev[5]["pid"], None)
+            self._succ = out
+        return self._succ
+
     def ancestors(self, x):
         seen, todo = set(), list(self.ups(x))
         while todo:
@@ -95,14 +113,14 @@ def check_C05(c):
     # (c) body executions never overlap, none after success
     running = defaultdict(int)
     succeeded = {}
+    for x_, s_ in c.successes():
+        succeeded.setdefault(x_, s_)
     cleaned = {ev[5]["x"]: ev[0] for ev in c.by["cli-rmtree"] if ev[5].get("x") is not None}
     for ev in c.events:
         k = ev[4]
-        if k == "body-end" and ev[5]["outcome"] == "ok":
-            succeeded.setdefault(ev[5]["x"], ev[0])
         if k == "body-start":
             x = ev[5]["x"]
-            if x in succeeded and not (x in cleaned and cleaned[x] > succeeded[x]):
+            if x in succeeded and succeeded[x] < ev[0] and not (x in cleaned and cleaned[x] > succeeded[x]):
                 out.append(V("C05", "body-run-again-after-success", {},
                              "body of x=%d started at seq %d although an execution had already completed successfully at seq %d" % (x, ev[0], succeeded[x])))
             if running[x] > 0:
@@ -293,16 +311,24 @@ def expected_outcomes(c, pid):
         if ev[2] == pid and ev[5]["where"] == "aio_submit" and ev[5]["new"] == "RUNNING":
             adopt_of.setdefault(ev[5]["x"], ev[0])
 
-    observed = {}     # (x, attempt) -> how that body execution ended
+    observed = {}     # (x, attempt) -> how that execution ended ("ok" only if the process also exited with 0)
     open_att = {}
+    by_proc = {}      # job pid -> (x, attempt) of its last body
     for ev in c.events:
         if ev[4] == "body-start":
             open_att[(ev[2], ev[5]["x"])] = ev[5]["attempt"]
+            by_proc[ev[2]] = (ev[5]["x"], ev[5]["attempt"])
         elif ev[4] == "body-end":
             x_ = ev[5]["x"]
             key = next((k for k in open_att if k[1] == x_ and (k[0] == ev[2] or ev[2] == 0)), None)
             if key is not None:
                 observed[(x_, open_att.pop(key))] = ev[5]["outcome"]
+        elif ev[4] == "proc-killed" and ev[5].get("kind") == "job" and ev[5]["pid"] in by_proc:
+            # killed after the body but before the success marker was written: not a success
+            observed[by_proc[ev[5]["pid"]]] = "killed"
+        elif ev[4] == "proc-exit" and ev[5].get("kind") == "job" and ev[2] in by_proc and ev[5]["code"] != 0:
+            if observed.get(by_proc[ev[2]]) == "ok":
+                observed[by_proc[ev[2]]] = "exit-nonzero"
 
     def attempt_outcome(x, att):
         if (x, att) in observed:
@@ -329,8 +355,8 @@ def expected_outcomes(c, pid):
             # a process of an earlier run was adopted: its attempt decides
             att = sum(1 for ev in c.by["body-start"] if ev[5]["x"] == x and ev[0] < adopt_of[x]) - 1
             res = attempt_outcome(x, att)
-            if res == "ERROR" and any(ev[5]["x"] == x and ev[5]["outcome"] == "ok" for ev in c.by["body-end"]):
-                res = "DONE"      # (it had already completed when it was looked at)
+            if res == "ERROR" and any(ev[5]["x"] == x for ev in c.by["marker-written"]):
+                res = "DONE"      # (it had already completed, marker written, when it was looked at)
             exp[x] = (res, True)
         else:
             att = sum(1 for ev in c.by["body-start"] if ev[5]["x"] == x and entered is not None and ev[0] < entered)
@@ -354,8 +380,18 @@ def check_C07(c):
         if _raised_in_block_pid(c, pid) or _stopped(c, pid):
             continue
         exp = expected_outcomes(c, pid)
-        any_error = False
+        # jobs submitted again after a failure (and what depends on them) are outside the
+        # per-job model; the report on exit is judged from the observed final states
+        resub = {ev[5]["x"] for ev in c.by["submit-return"] if ev[2] == pid and ev[5].get("dup") and ev[5].get("first_state") == "ERROR"}
+        tainted = {x for x in exp if x in resub or (c.ancestors(x) & resub)}
+        last_state = {}
+        for ev in c.by["state"]:
+            if ev[2] == pid:
+                last_state[ev[5]["job"]] = ev[5]["new"]
+        any_error = any(s == "ERROR" for s in last_state.values())
         for x, (st, launched) in sorted(exp.items()):
+            if x in tainted:
+                continue
             j = pr["jobs"].get(str(x))
             if j is None:
                 continue
@@ -461,14 +497,15 @@ def check_C11(c):
             running[x] += 1
         elif ev[4] == "body-end":
             running[ev[5]["x"]] -= 1
-            if ev[5]["outcome"] == "ok":
-                ok_count[ev[5]["x"]] += 1
+    for x_, _s in c.successes():
+        ok_count[x_] += 1
+    killed_after_body = {ev[5]["x"] for ev in c.by["proc-killed"] if ev[5].get("kind") == "job"}
     for x, n in sorted(ok_count.items()):
         if n > 1:
             out.append(V("C11", "body-completed-twice", {}, "body of x=%d completed successfully %d times" % (x, n)))
     if allok:
         for x, n in sorted(starts.items()):
-            if n > 1:
+            if n > 1 and x not in killed_after_body:
                 out.append(V("C11", "body-repeated", {}, "body of x=%d started %d times although nothing fails" % (x, n)))
     # adoption: no launch of a job that is running with a complete pid file
     alive_at = {}   # jpid -> (x, start seq, end seq)
